@@ -2185,9 +2185,10 @@ func opObjMap(h *Hist) {
 
 func opClone(h *Hist) {
 	n := h.pickAny()
-	if n == nil || !h.plain(n) || h.hasDerivedBelow(n) {
+	if n == nil || !h.plain(n) {
 		return
 	}
+	derivedBelow := h.hasDerivedBelow(n)
 	if len(h.nodes)+len(reach(n)) > h.maxNodes+8 && !(h.sizeClass >= 2 && len(h.nodes) < 1500) {
 		return
 	}
@@ -2225,6 +2226,14 @@ func opClone(h *Hist) {
 	}
 	if len(src) < len(occurrences(n)) {
 		h.counters["probe:clone-source-holds-a-container-twice"]++
+	}
+	if derivedBelow {
+		// a derived structure inside the tree is copied as a plain container; Equals between a plain and a derived
+		// container is outside the statement, freshness and independence are not
+		h.counters["probe:clone-with-derived-structure-inside"]++
+		h.trace[len(h.trace)-1] += " -> " + r.Name
+		h.heapCheck()
+		return
 	}
 	// Equals both ways
 	var e1, e2 bool
@@ -2425,6 +2434,10 @@ func opBurst(h *Hist) {
 		kinds = []string{"Set-new-keys", "Unset-one-by-one", "Set-then-Unset", "Unset-pairs"}
 	} else {
 		kinds = []string{"Add", "Pop", "Delete-first", "Delete-middle", "Insert-front", "Add-then-drain", "Add-then-Delete-first"}
+		if h.prop == "C11" || h.prop == "C08" || h.prop == "C19" {
+			// the same growth and drain through tree-form paths
+			kinds = append(kinds, "SetTF-append-then-UnsetTF-first", "SetTF-append-then-UnsetTF-middle", "SetTF-append-then-UnsetTF-first")
+		}
 	}
 	kind := kinds[h.d.Draw("burst-kind", len(kinds))]
 	h.begin("Burst", h.ownerOf(n)...)
@@ -2561,6 +2574,25 @@ func opBurst(h *Hist) {
 		for i := 0; i < m && len(n.Elems) < 400; i++ {
 			mv := mInt(2000 + i)
 			if !step("Insert", func() any { return n.list().Insert(0, mv.goValue()) }, func() { n.Elems = append([]MVal{mv}, n.Elems...) }) {
+				return
+			}
+		}
+	case "SetTF-append-then-UnsetTF-first", "SetTF-append-then-UnsetTF-middle":
+		h.curOwner = []string{"C11"}
+		for i := 0; i < m && len(n.Elems) < 400; i++ {
+			mv := mInt(3000 + i)
+			at := len(n.Elems)
+			if !step("SetTF", func() any { return n.list().SetTF("#"+strconv.Itoa(at), mv.goValue()) }, func() { n.Elems = append(n.Elems, mv) }) {
+				return
+			}
+		}
+		keep := h.d.Draw("burst-keep", 6)
+		for len(n.Elems) > keep && !h.dead {
+			i := 0
+			if kind == "SetTF-append-then-UnsetTF-middle" {
+				i = h.d.Draw("burst-idx", len(n.Elems))
+			}
+			if !step("UnsetTF", func() any { return n.list().UnsetTF("#" + strconv.Itoa(i)) }, func() { n.Elems = append(n.Elems[:i], n.Elems[i+1:]...) }) {
 				return
 			}
 		}
